@@ -1,7 +1,10 @@
 (* Extraction of the C17 models for the correspondence driver (ExtrOcamlBasic only). *)
 Require Extraction.
 Require Import ExtrOcamlBasic.
-From Quiver Require Import Ast Simplify.
+From Quiver Require Import Ast Simplify Escape Pretty.
 Extraction Language OCaml.
 Extraction "extracted/format_model.ml"
-  normalize_blocks compiler_options formatter_options keep_by_span.
+  normalize_blocks compiler_options formatter_options keep_by_span
+  escape_single unescape scan_single render_multiline process_multiline process_multiline_term
+  scan_multiline_raw multiline_dedent process_escapes
+  Pretty.print Pretty.group Pretty.forces_break.
